@@ -673,7 +673,7 @@ fn gen_faults(seed: u64, thorough: bool) -> (Vec<String>, Vec<String>) {
                         if !big || thorough || (par && multi) {
                             push_case(&mut out, api, sh, w, h, mips, par, rep, "pres".into(), &mut k, &mut rng);
                         }
-                        if (par && multi && (!big || mips == 0)) || thorough || (!big && (si + k) % 3 == 0) {
+                        if (par && multi && (!big || mips == 0)) || (thorough && (!big || (par && multi))) || (!big && (si + k) % 3 == 0) {
                             push_case(&mut out, api, sh, w, h, mips, par, rep, "iosweep".into(), &mut k, &mut rng);
                         } else {
                             let (a, b) = points[(si + k) % points.len()];
@@ -686,7 +686,7 @@ fn gen_faults(seed: u64, thorough: bool) -> (Vec<String>, Vec<String>) {
     }
     let structured = std::mem::take(&mut out);
     // PRNG: multi-fragment parallel BC encodes, every pool size / completion order
-    let n_rand = if thorough { 6_000 } else { 1_500 };
+    let n_rand = if thorough { 4_500 } else { 1_500 };
     let bc_shapes: Vec<&(&str, &str, &str, &str)> = SHAPES.iter().filter(|s| is_bc(s.0)).collect();
     for _ in 0..n_rand {
         let sh = **rng.pick(&bc_shapes);
